@@ -25,6 +25,8 @@ func Relay(name string, tags map[string]bool) *vtx.Profile {
 	cfgs := []vtx.Config{
 		{Policy: "allow"}, {Policy: "denyB"}, {Policy: "denyAll"},
 		{Policy: "denyB", Perm: 40 * time.Second, Chan: 100 * time.Second},
+		// the permission handler's verdict for B changes from yes to no 5 s into the run (the +7 s advance crosses it)
+		{Policy: "denyBlate", Perm: 40 * time.Second, Chan: 100 * time.Second},
 	}
 	if rep.Thorough() {
 		depth = 5
@@ -122,13 +124,14 @@ func IsolationDual(name string, tags map[string]bool) *vtx.Profile {
 
 // IsolationFamily: two clients whose source addresses differ only in address
 // family representation (10.0.0.2:4000 and [::10.0.0.2]:4000, the deprecated
-// IPv4-compatible form) plus a third on the same IP with another port.
+// IPv4-compatible form), [0a00:0002::]:4000 (the IPv4 bytes at the head of an IPv6 address) plus one on
+// the same IP with another port.
 func IsolationFamily(name string, tags map[string]bool) *vtx.Profile {
 	depth := 4
 	if rep.Thorough() {
 		depth = 5
 	}
-	cl := []string{"c1", "c1x", "c2"}
+	cl := []string{"c1", "c1x", "c1h", "c2"}
 
 	return &vtx.Profile{
 		Name: name, Configs: []vtx.Config{{}}, Clients: cl, Peers: []string{"A", "B"}, Chans: []uint16{N1}, Depth: depth, Drain: true, Tags: tags,
